@@ -80,6 +80,7 @@ fn exec(t: &mut Tape, st: &mut Stats) -> Result<(), String> {
         await_mode: AwaitMode::Look,
         server_pre: if path == 2 { ServerPre::Refuse } else { ServerPre::Silent },
         resp: RespSpec { head: RespHead { v11: true, status, reason: Some(b"R".to_vec()), fields }, body_wire: body.clone(), payload: body, close_delimited: false },
+        prep: 0,
     };
     let what = format!("{} {} {:?} body={} location={} path={}", method, status, policy, with_body, with_location, ["plain", "despite-method", "expect-refused"][path]);
     let stream = spec.stream();
@@ -227,6 +228,7 @@ fn exec_variants(t: &mut Tape, st: &mut Stats) -> Result<(), String> {
         await_mode: AwaitMode::NeverLook,
         server_pre: ServerPre::Silent,
         resp: mk_resp(status1, loc),
+        prep: 0,
     };
     let stream = spec.stream();
     let term = match run_exchange(&spec, None, &stream, &mut Sched::canonical()).map_err(|e| format!("{}: {}", what, e))? {
@@ -276,6 +278,7 @@ fn exec_variants(t: &mut Tape, st: &mut Stats) -> Result<(), String> {
         await_mode: AwaitMode::NeverLook,
         server_pre: ServerPre::Silent,
         resp: mk_resp(status2, "/third"),
+        prep: 0,
     };
     if crate::drive::recv::needs_body(&m1) {
         // a body method survives only 301..303 -> never: m1 is GET/HEAD or a body-less method
